@@ -238,6 +238,10 @@ pub fn worker_main(args: &[String]) -> i32 {
     let mut all_traces: HashSet<u64> = HashSet::new();
     let mut states: HashSet<u64> = res.states.iter().copied().collect();
     let mut seen_sigs: HashSet<(String, String)> = res.violations.iter().map(|(v, _)| (v.clause.clone(), v.sig.clone())).collect();
+    let known: KnownFindings = std::fs::read_to_string(format!("{}/known-findings.json", verif_dir()))
+        .ok()
+        .and_then(|s| serde_json::from_str(&s).ok())
+        .unwrap_or_default();
     let marker = format!("{}.cur", out);
     let mut i = from;
     while i < count {
@@ -283,7 +287,8 @@ pub fn worker_main(args: &[String]) -> i32 {
                 continue;
             }
             seen_sigs.insert(key);
-            let path = if hard.is_some() {
+            let known = known.findings.iter().any(|k| k.property == viol.prop && k.clause == viol.clause && viol.sig.split(':').any(|t| t == k.sig_contains));
+            let path = if hard.is_some() || (known && std::env::var("DST_MIN_KNOWN").is_err()) {
                 write_replay(&case, &hist, viol, false, case.ops.len(), hist.out.decisions.len())
             } else {
                 let (mc, mh, mv, minimised) = minimize::minimise(&case, &hist, viol);
@@ -329,7 +334,8 @@ struct KnownFindings {
 struct KnownFinding {
     property: String,
     clause: String,
-    sig: String,
+    /// the violation's signature must contain this token (the class of failing history)
+    sig_contains: String,
     description: String,
 }
 
@@ -341,6 +347,15 @@ pub struct Budget {
 pub fn budget(prop: &str) -> Budget {
     match prop {
         "C01" => Budget { quick: 150_000, thorough: 3_000_000 },
+        "C02" => Budget { quick: 100_000, thorough: 2_000_000 },
+        "C03" => Budget { quick: 150_000, thorough: 3_000_000 },
+        "C04" => Budget { quick: 150_000, thorough: 3_000_000 },
+        "C05" => Budget { quick: 100_000, thorough: 1_000_000 },
+        "C06" => Budget { quick: 100_000, thorough: 2_000_000 },
+        "C08" => Budget { quick: 80_000, thorough: 1_500_000 },
+        "C10" => Budget { quick: 100_000, thorough: 1_000_000 },
+        "C11" => Budget { quick: 100_000, thorough: 1_000_000 },
+        "C16" => Budget { quick: 60_000, thorough: 1_000_000 },
         _ => Budget { quick: 100_000, thorough: 1_000_000 },
     }
 }
@@ -504,7 +519,7 @@ pub fn drive_main(args: &[String]) -> i32 {
             continue;
         }
         printed.insert(key);
-        if let Some(k) = kf.findings.iter().find(|k| k.property == v.prop && k.clause == v.clause && k.sig == v.sig) {
+        if let Some(k) = kf.findings.iter().find(|k| k.property == v.prop && k.clause == v.clause && v.sig.split(':').any(|t| t == k.sig_contains)) {
             println!("KNOWN-FINDING: property={} {} [{} {}] replay={}", v.prop, k.description, v.clause, v.sig, path);
             nknown += 1;
         } else {
